@@ -166,7 +166,7 @@ def launch(cfg, d, repo, textfile=None):
     if malloc == "malloc":
         env["PYTHONMALLOC"] = "malloc"
     inner = "exec %s%s -P %s" % ("setarch x86_64 -R " if aslr_off_available() else "", PYTHON, WORKER)
-    inner += ' 3>"$0"' if textfile else " 3>&-"
+    inner += ' 3>"$0"' if textfile else " 3>/dev/null"
     r = subprocess.run(["/bin/sh", "-c", inner, textfile or "sh"], input=json.dumps(spec, sort_keys=True).encode(),
                        env=env, cwd=VERIF, stdout=subprocess.PIPE, stderr=subprocess.PIPE)
     recs = []
